@@ -338,10 +338,18 @@ def _slices_with_upper(e):
     return [s for s in ast.walk(e) if isinstance(s, ast.Subscript) and isinstance(s.slice, ast.Slice) and s.slice.upper is not None and s.slice.lower is None]
 
 
+def _trunc_sites(F, label, derived):
+    out = []
+    for n in F.cfg.stmt_nodes(lambda n: n.kind == "stmt" and isinstance(n.ast, (ast.Assign, ast.AugAssign)) and label in q.assigned_paths(n.ast)):
+        sl = [s_ for s_ in _slices_with_upper(n.ast.value) if q.names_in(s_.value) & derived]
+        if sl:
+            out.append((n, sl))
+    return out
+
+
 def rule_entity_clip(ck, lk, mk, sub, lmax):
     rid = "C22.entity-clip"
     cfg = mk.cfg
-    mp = mk.params()[0]
     # the label: the variable interpolated as the anchor's content
     anchors = [r for r in cfg.stmt_nodes(lambda n: n.kind == "stmt" and isinstance(n.ast, ast.Return)) if _anchor(r.ast.value)]
     t, xs = _anchor(anchors[0].ast.value)
@@ -350,6 +358,34 @@ def rule_entity_clip(ck, lk, mk, sub, lmax):
         raise AnalysisError("make_link: anchor label not found in %r" % t)
     label = q.dotted(xs[k])
     derived = tainted_names(mk, [label])
+    if _trunc_sites(mk, label, derived):
+        return _clip_in(ck, lk, mk, label, lmax)
+    # function splitting: the shortening lives in a helper that receives the matched text and returns the label
+    cands = []
+    for n in cfg.stmt_nodes(lambda n: n.kind == "stmt" and isinstance(n.ast, ast.Assign) and (q.assigned_paths(n.ast) & derived)):
+        for c in q.calls(n.ast.value):
+            if isinstance(c.func, ast.Name) and c.args and (q.names_in(c.args[0]) & derived):
+                h = mk.module.funcs.get(c.func.id) or mk.module.funcs.get(lk.qualname + ".<locals>." + c.func.id)
+                if h is not None and h.params():
+                    p0 = h.params()[0]
+                    hd = tainted_names(h, [p0])
+                    work = sorted({q.dotted(r.value) for r in q.walk_body(h.node) if isinstance(r, ast.Return) and r.value is not None and q.dotted(r.value) in hd and q.dotted(r.value) != p0})
+                    for w_ in work:
+                        if _trunc_sites(h, w_, hd):
+                            cands.append((h, w_))
+    if len(cands) == 1:
+        ck.use(cands[0][0])
+        return _clip_in(ck, lk, cands[0][0], cands[0][1], lmax)
+    if len(cands) > 1:
+        raise AnalysisError("make_link: several shortening helpers")
+    raise AnalysisError("make_link: no label truncation found here or in a helper the matched text is passed to")
+
+
+def _clip_in(ck, lk, mk, label, lmax):
+    """Entity-guard analysis inside function ``mk`` (make_link or the helper that shortens) for label variable ``label``."""
+    rid = "C22.entity-clip"
+    cfg = mk.cfg
+    derived = tainted_names(mk, [label] + ([mk.params()[0]] if mk.params() else []))
     # truncation sites: (re)bindings of the label whose value takes a bounded prefix of label-derived text
     truncs = []
     for n in cfg.stmt_nodes(lambda n: n.kind == "stmt" and isinstance(n.ast, (ast.Assign, ast.AugAssign)) and label in q.assigned_paths(n.ast)):
@@ -437,6 +473,12 @@ def rule_entity_clip(ck, lk, mk, sub, lmax):
     consts = {}
     for nm in names - {amp, label, "len"}:
         v = single_assignment(mk.node, nm)
+        hops = 0
+        while isinstance(v, ast.Name) and hops < 4:
+            v = single_assignment(mk.node, v.id) or mk.module.assigns.get(v.id)
+            hops += 1
+        if v is None and nm in mk.module.assigns:
+            v = mk.module.assigns[nm]
         if isinstance(v, ast.Constant) and isinstance(v.value, (int, float)):
             consts[nm] = v.value
         else:
@@ -504,14 +546,36 @@ SAFE_LABEL_CALLS = {"split", "rsplit", "partition", "rpartition", "rfind", "find
 TRANSCODERS = {"xhtml_unescape", "unescape", "url_unescape", "unquote", "unquote_plus", "xhtml_escape", "escape", "url_escape", "quote", "quote_plus", "decode", "encode", "lower", "upper", "title", "replace", "translate", "format", "strip", "lstrip", "rstrip"}
 
 
-def _slicing_helper(lk, mk, name):
-    """A function of this module whose every return is its first parameter or a slice of it."""
-    h = mk.module.funcs.get(name) or mk.module.funcs.get(lk.qualname + ".<locals>." + name)
-    if h is None or not h.params():
-        return False
-    p0 = h.params()[0]
-    rets = [r for r in q.walk_body(h.node) if isinstance(r, ast.Return)]
-    return bool(rets) and all(r.value is not None and (q.dotted(alias_expand(h.node, r.value)) == p0 or (isinstance(alias_expand(h.node, r.value), ast.Subscript) and q.dotted(alias_expand(h.node, r.value).value) == p0 and isinstance(alias_expand(h.node, r.value).slice, ast.Slice))) for r in rets) and not any(isinstance(x, (ast.Assign, ast.AugAssign)) and p0 in q.assigned_paths(x) for x in q.walk_body(h.node))
+def _label_calls(lk, F, v, depth=2):
+    """(bad transcoder calls, unknown calls) in expression ``v`` of function ``F``; same-module helpers are followed."""
+    bad, unknown = [], []
+    for c in [c for c in ast.walk(v) if isinstance(c, ast.Call)]:
+        nm = q.call_attr(c)
+        if nm in SAFE_LABEL_CALLS:
+            continue
+        if nm in TRANSCODERS:
+            bad.append(nm)
+            continue
+        h = None
+        if isinstance(c.func, ast.Name):
+            h = F.module.funcs.get(c.func.id) or F.module.funcs.get(lk.qualname + ".<locals>." + c.func.id)
+        if h is not None and depth > 0 and h.params():
+            hd = tainted_names(h, [h.params()[0]])
+            ok = True
+            for st in [x for x in q.walk_body(h.node) if isinstance(x, (ast.Assign, ast.AugAssign)) and (q.assigned_paths(x) & hd)]:
+                b2, u2 = _label_calls(lk, h, st.value, depth - 1)
+                bad += b2
+                unknown += u2
+                lits = [k_.value for k_ in ast.walk(st.value) if isinstance(k_, ast.Constant) and isinstance(k_.value, str) and not any(isinstance(c2, ast.Call) and k_ in c2.args for c2 in ast.walk(st.value))]
+                if any(set(x) & set("<>&\"'") for x in lits):
+                    bad.append("markup literal in %s" % h.name)
+            for r in [r for r in q.walk_body(h.node) if isinstance(r, ast.Return) and r.value is not None]:
+                b2, u2 = _label_calls(lk, h, r.value, depth - 1)
+                bad += b2
+                unknown += u2
+            continue
+        unknown.append(nm)
+    return bad, unknown
 
 
 def rule_label_derived(ck, lk, mk):
@@ -530,24 +594,13 @@ def rule_label_derived(ck, lk, mk):
     for st in [x for x in q.walk_body(mk.node) if isinstance(x, (ast.Assign, ast.AugAssign)) and (label in q.assigned_paths(x) or (q.assigned_paths(x) & derived and any(nm in q.names_in(x.value) for nm in (label,))))]:
         n += 1
         v = st.value
-        bad_calls = []
-        unknown = []
-        for c in [c for c in ast.walk(v) if isinstance(c, ast.Call)]:
-            nm = q.call_attr(c)
-            if nm in SAFE_LABEL_CALLS:
-                continue
-            if isinstance(c.func, ast.Name) and _slicing_helper(lk, mk, c.func.id):
-                continue
-            if nm in TRANSCODERS:
-                bad_calls.append(nm)
-            else:
-                unknown.append(nm)
+        bad_calls, unknown = _label_calls(lk, mk, v)
         if unknown and not bad_calls:
             raise AnalysisError("make_link: call %s in the label computation is not understood" % unknown)
         ck.ob(rid, mk, st, not bad_calls, "the label is cut out of the matched text without re-coding it%s" % ("" if not bad_calls else " (calls %s)" % bad_calls))
         lits = [k.value for k in ast.walk(v) if isinstance(k, ast.Constant) and isinstance(k.value, str) and not any(isinstance(c, ast.Call) and k in c.args for c in ast.walk(v))]
         ck.ob(rid, mk, st, all(not (set(x) & set("<>&\"'")) for x in lits), "literal text added to the label contains no markup characters", construct="label literals %s" % lits)
-    ck.floor(rid, n, 3, "label computations")
+    ck.floor(rid, n, 1, "label computations")
 
 
 def _amp_lookups(fi):
